@@ -29,6 +29,7 @@ fn inst(
         body: Arc::new(body),
         k: 0,
         p_with_k: None,
+        thorough_only: false,
         expect_all_dead: true,
         tls_reverse: false,
         size,
@@ -146,14 +147,14 @@ fn more_family<S: Strat + arc_swap::strategy::Strategy<crate::api::V2> + arc_swa
             format!("iso_ab:{}:{}", path, m),
             &["C01", "C03", "C12", "C13"],
             mode,
-            2,
+            1,
             "R{load A, load B (another pointee type)} || W{store A, store A}",
             move || h_more::iso_ab::<S>(fill),
         ));
         {
             let mut x = inst(
                 format!("cas_adv:{}:{}", path, m),
-                &["C02", "C05", "C09"],
+                &["C02", "C04", "C05", "C09"],
                 mode,
                 2,
                 "C{compare_and_swap(a => n)} with W{store b; store a} as complete calls in any gaps (A-B-A)",
@@ -164,7 +165,7 @@ fn more_family<S: Strat + arc_swap::strategy::Strategy<crate::api::V2> + arc_swa
             out.push(x);
             let mut x = inst(
                 format!("rcu_aba:{}:{}", path, m),
-                &["C02", "C06", "C09"],
+                &["C02", "C04", "C06", "C09"],
                 mode,
                 2,
                 "T{rcu(+1)} with W{swap b; swap a (the same object again)} as complete calls in any gaps (A-B-A)",
@@ -188,7 +189,7 @@ fn more_family<S: Strat + arc_swap::strategy::Strategy<crate::api::V2> + arc_swa
         if mode == Fresh {
             let mut x = inst(
                 format!("help_adv:{}", path),
-                &["C01", "C03"],
+                &["C03"],
                 mode,
                 4,
                 "R{load, load} || W{store} interleaved step by step (3 preemptions) + W2{store} as one complete call placed anywhere",
@@ -246,7 +247,7 @@ fn more_family<S: Strat + arc_swap::strategy::Strategy<crate::api::V2> + arc_swa
         ));
         out.push(inst(
             format!("wrap1:{}:{}", path, m),
-            &["C13"],
+            &["C13", "C01"],
             mode,
             2,
             "generation counter 1..3 transactions before its wrap; R{2 loads} || W{store}; later thread",
@@ -260,6 +261,38 @@ fn more_family<S: Strat + arc_swap::strategy::Strategy<crate::api::V2> + arc_swa
             "W (fast slots full, generation 1 before wrap){store, store} || R{load on the fallback path}: the wrap happens in the load W does while helping R",
             move || h_more::wrap_nested::<S>(fill),
         ));
+        out.push(inst(
+            format!("wrap_claim:{}:{}", path, m),
+            &["C13", "C11"],
+            mode,
+            2,
+            "R{2 loads, the first wraps the generation} || S{first use of the crate: load_full, S+1 guards}",
+            move || h_more::wrap_claim::<S>(fill),
+        ));
+        if mode == Fresh {
+            let mut x = inst(
+                format!("churn_help:{}", path),
+                &["C11"],
+                mode,
+                4,
+                "T{load, exit} || W{store} step by step, S{first use: load} starting inside, W2{store} as one complete call placed anywhere",
+                move || h_more::churn_help::<S>(fill),
+            );
+            x.k = 1;
+            x.p_with_k = Some(3);
+            x.thorough_only = true;
+            out.push(x);
+        }
+        if mode == Fresh {
+            out.push(inst(
+                format!("wrap_nested3:{}", path),
+                &["C13", "C01", "C03"],
+                mode,
+                3,
+                "wrap_nested + T3{first use: store, load} starting inside the race (may claim the node the writer discarded in its nested load)",
+                move || h_more::wrap_nested3::<S>(fill),
+            ));
+        }
         out.push(inst(
             format!("wrap2:{}:{}", path, m),
             &["C13"],
@@ -282,6 +315,14 @@ fn more_family<S: Strat + arc_swap::strategy::Strategy<crate::api::V2> + arc_swa
                 ));
             }
         }
+        out.push(inst(
+            format!("map_life:{}", path),
+            &["C17", "C10"],
+            Fresh,
+            2,
+            "T1 takes a Map projection guard and exits; another thread derefs it twice and drops it || W{store}",
+            move || h_more::map_life::<S>(),
+        ));
         out.push(inst(
             format!("churn_seq:{}", path),
             &["C10", "C11", "C13"],
